@@ -48,6 +48,8 @@ theorem adv_cons {t : ATok} {rest : Toks} (h : rest ≠ []) : adv (t :: rest) = 
   | nil => exact absurd rfl h
   | cons u r => rfl
 
+theorem adv_cons2 (t u : ATok) (rest : Toks) : adv (t :: u :: rest) = u :: rest := rfl
+
 theorem cur_append_cons (t : ATok) (pre rest : Toks) : cur (t :: pre ++ rest) = t := rfl
 
 theorem unescape_eq_strValue (l : List Sym) : parsePrimary.unescape l = strValue l := by
